@@ -205,19 +205,18 @@ def run_check(pid, tier, seed, workers, only, write_evidence):
     exit_code = 0
     for role, (k, c) in listed.items():
         print('KNOWN-FINDING: property=%s %s (e.g. %s)' % (pid, k.get('what', role), c['what']))
-    shown = set()
-    for c in new:
-        if c['role'] in shown and len(shown) > 8:
-            continue
-        shown.add(c['role'])
+    for i, c in enumerate(new):
         h = hashlib.sha256(json.dumps(c['request'], sort_keys=True).encode()).hexdigest()[:12]
         path = os.path.join(HERE, 'cases', '%s-%s.json' % (pid, h))
-        json.dump({'property': pid, 'request': c['request'], 'what': c['what'], 'label': c['label'], 'query': c['query']},
-                  open(path, 'w'), indent=1)
-        if len(shown) <= 8:
+        if i < 40:
+            json.dump({'property': pid, 'request': c['request'], 'what': c['what'], 'label': c['label'], 'query': c['query']},
+                      open(path, 'w'), indent=1)
+        if i < 5:
             print('VIOLATION property=%s replay=%s' % (pid, path))
             print('  %s: %s' % (c['label'], c['what']))
         exit_code = 1
+    if len(new) > 5:
+        print('  (+%d more confirmed violations)' % (len(new) - 5))
     if inconclusive and exit_code == 0:
         exit_code = 2
     for msg in inconclusive[:12]:
